@@ -25,6 +25,7 @@ def check(plan, results):
         archived_ok = set()
         arch_state = {}
         failed = False
+        pass_unlinks = []    # unlinks of the current pass (a failure LATER in the same pass condemns them as well)
         cur_step = -1
         for e in events:
             t = e.get("t")
@@ -34,6 +35,7 @@ def check(plan, results):
                 if e.get("name") == "flush.released":
                     in_pass = e.get("key")
                     archived_ok, arch_state, failed = set(), {}, False
+                    pass_unlinks = []
                 elif e.get("name") == "flush.pruned":
                     in_pass = None
                 continue
@@ -59,6 +61,8 @@ def check(plan, results):
                     else:
                         if failed:
                             v("unlink-after-failed-archive", li, f"{path}: unlinked although an archive operation failed in this pass", step=cur_step)
+                        else:
+                            pass_unlinks.append((path, cur_step))
                         if key not in archived_ok:
                             v("unlink-without-archive", li, f"{path}: unlinked but no complete archive of log {key[1]} was written in this pass (archived: {sorted(archived_ok)})", step=cur_step)
                     deleted.append((li, key[0], key[1], bytes(wal_content.pop(key, b""))))
@@ -70,6 +74,10 @@ def check(plan, results):
                     # (create_dir_all tolerates any mkdir error when the directory exists; a directory that is
                     # really missing shows up as a failing or absent open of the archive file)
                     failed = True
+                    if in_pass is not None:
+                        for upath, ustep in pass_unlinks:
+                            v("unlink-after-failed-archive", li, f"{upath}: unlinked in a clean-up pass in which archiving a later file ({path}) failed", step=ustep)
+                        pass_unlinks = []
                 ma = ARCH.match(path)
                 if ma:
                     key = (ma.group(1), int(ma.group(2)))
